@@ -191,6 +191,10 @@ func parseModifies(text, pos string) ([]ModItem, error) {
 		switch {
 		case it == "nothing":
 			continue
+		case strings.HasPrefix(it, "* except "):
+			// everything may change except the listed whole field families: "* except type T.f; type U.g"
+			m.Kind = "allexcept"
+			m.T = strings.TrimSpace(it[len("* except "):])
 		case it == "*":
 			m.Kind = "all"
 		case strings.HasPrefix(it, "new "):
